@@ -109,12 +109,11 @@ class Residue():
     def residue_number(self) -> List[int]:
         if '_' in self._spline[0] and '$' not in self._spline[0]:
             _, suffix = self._spline[0].upper().split('_')
+            # TODO: implement _+ and _-
+            if suffix == '*':
+                return list(self.shx.residues.residue_numbers.keys())  # type: ignore
             if suffix.isdigit():
-                # TODO: implement _+, _- and _*
-                if '*' in suffix:
-                    return list(self.shx.residues.residue_numbers.keys())  # type: ignore
-                else:
-                    return [int(suffix)]
+                return [int(suffix)]
         return self.shx.residues.residue_classes.get(self.residue_class, [0])  # type: ignore
 
 
